@@ -228,6 +228,7 @@ func (l *list[T]) ForEachReverse(callback func(value T) error) error {
 // Range executes the given callback for the value of each element in the List.
 func (l *list[T]) Range(callback func(value T)) {
 	for element := l.Front(); element != nil; element = element.Next() {
+		verifYield("list-range-step")
 		callback(element.Value())
 	}
 }
@@ -235,6 +236,7 @@ func (l *list[T]) Range(callback func(value T)) {
 // RangeReverse executes the given callback for the value of each element in the List in reverse order.
 func (l *list[T]) RangeReverse(callback func(value T)) {
 	for element := l.Back(); element != nil; element = element.Prev() {
+		verifYield("list-range-step")
 		callback(element.Value())
 	}
 }
